@@ -3,7 +3,7 @@ import ChythonModel.Model.C02RoundTrip
 /-!
 Line-protocol driver for C02.  All arguments are ints:
 
-  `<op> <opts> <mol…> nW (atom weight)* nR (len atom*)* nF (child parent len atom*)* nD (atom draw)*`
+  `<op> <opts> <mol…> nW (atom weight)* nR (len atom*)* nF (child parent len atom*)* nD (atom draw)* nT (len atom env*)* nC (len n0 n1 n2+1 n3+1 path*)*`
 
   `W` → `format(mol, spec)` and `smiles_atoms_order`   : `ok <order,…>;<text>` | `err <kind>`
   `T` → tokens of the writer (`string` list), `|`-separated, then the lexer model's verdict on the joined text
@@ -59,10 +59,25 @@ def parseReq (xs : List Int) : Option (Opts × Mol × Env) := do
           match r7 with
           | nD :: r8 =>
             let (dr, r9) ← parsePairs nD.toNat r8
-            if !r9.isEmpty then none
-            else some (optsOf o.toNat, m,
-              { weights := ws.map fun p => (p.1.toNat, p.2), setOrders := so, front := fr,
-                draws := dr.map fun p => (p.1.toNat, p.2.toNat) })
+            match r9 with
+            | nT :: r10 =>
+              let (te, r11) ← parseLists nT.toNat r10     -- each: atom :: env
+              match r11 with
+              | nC :: r12 =>
+                let (cu, r13) ← parseLists nC.toNat r12   -- each: n0 n1 n2+1 n3+1 (0 = None) :: path
+                if !r13.isEmpty then none
+                else
+                  let tetra := te.filterMap fun l => match l with | n :: env => some (n, env) | [] => none
+                  let cumul := cu.filterMap fun l => match l with
+                    | n0 :: n1 :: n2 :: n3 :: path =>
+                      some (path, ({ n0 := n0, n1 := n1, n2 := if n2 == 0 then none else some (n2 - 1),
+                                     n3 := if n3 == 0 then none else some (n3 - 1) } : Stereo.Ends))
+                    | _ => none
+                  some (optsOf o.toNat, m,
+                    { weights := ws.map fun p => (p.1.toNat, p.2), setOrders := so, front := fr,
+                      draws := dr.map fun p => (p.1.toNat, p.2.toNat), tetra := tetra, cumul := cumul })
+              | [] => none
+            | [] => none
           | [] => none
         | [] => none
       | [] => none
